@@ -264,11 +264,11 @@ struct Planned {
 
 /// Random protocol, retry count and server reactions; the script is built by following the control flow of Exchange.tla;
 /// what the client really did is recorded from the transport hook and projected onto the specification's alphabet.
-pub fn trace_random(ctx: &Ctx, seed: u64, runs: usize, out: &mut Vec<Value>, rep: &mut Report) {
+pub fn trace_random(ctx: &Ctx, seed: u64, runs: usize, dump: Option<usize>, out: &mut Vec<Value>, rep: &mut Report) {
     let mut rng = StdRng::seed_from_u64(seed);
     let protos = ["quake1", "quake2", "quake3", "gs1", "gs2", "gs3", "jc2m", "java", "bedrock", "legacy16", "legacy14", "legacyb18",
                   "mindustry", "savage2", "ffow"];
-    for _ in 0 .. runs {
+    for ix in 0 .. runs {
         let p = protos[rng.gen_range(0 .. protos.len())];
         let r = [0usize, 0, 1, 1, 2, 3, 5][rng.gen_range(0 .. 7)];
         let tcp = matches!(p, "java" | "legacy16" | "legacy14" | "legacyb18");
@@ -360,7 +360,11 @@ pub fn trace_random(ctx: &Ctx, seed: u64, runs: usize, out: &mut Vec<Value>, rep
         rep.evaluations += 1;
         rep.distinct.insert(hash_of(&(p, r, planned.iter().map(|x| x.react).collect::<Vec<_>>())));
         let start = out.len();
-        out.push(json!({"ev":"Call","p":p,"r":r}));
+        out.push(json!({"ev":"Call","ix":ix,"p":p,"r":r}));
+        if dump == Some(ix) {
+            rep.extra.insert("dumped_run".into(), json!({"kind":"exchange-trace","proto":p,"r":r,"script":script,
+                                                         "reactions":planned.iter().map(|x| x.react).collect::<Vec<_>>()}));
+        }
         let family: Vec<&str> = match p {
             "gs3" => vec!["gs3.handshake", "gs3.data"],
             "jc2m" => vec!["gs3.handshake", "jc2m.data"],
